@@ -91,6 +91,12 @@ class Analyzer(Interp):
         self.visited = set()       # (fn name, block) executed with a non-bottom state
         self.nonconverged = set()
         self._touch = None
+        self._enums = None
+        self.observed_calls = {}
+        self.observed = {}              # (callee name, param index) -> [lo, hi] hull over the non-inlined call sites seen
+        self.monotone = []              # (adt suffix, field): sequences that most functions only append to
+        self._shrinkers = {}
+        self._grow_cache = {}
         self.keep_dead = False          # keep the last value of locals past StorageDead (used by rules that inspect named locals)
         self.closure_ctx_only = set()   # closures analysed at their single call (through a modelled combinator)
         self.closure_multi = set()
@@ -488,6 +494,23 @@ class Analyzer(Interp):
             out.extend(exits[b])
         return out, back
 
+    def is_enum(self, adt):
+        if self._enums is None:
+            self._enums = {a["name"] for a in self.P.facts.get("adts", []) if a.get("kind") == "enum"}
+            self._enums |= {n[len("mdns_sd::"):] for n in self._enums if n.startswith("mdns_sd::")}
+        return adt in self._enums
+
+    def check_field_range(self, st, fn, b, key, v):
+        fr = self.field_range(key)
+        if fr is None or v is None or v is TOP:
+            return
+        if v[0] == "int":
+            self.require(st, fn, b, "field-range:%s" % ".".join(str(x) for x in key[2][-2:]),
+                         "value stored in a range-declared field stays within [%d, %d]" % fr,
+                         [Lin.const(fr[0]).sub(v[1]), v[1].addc(-fr[1])], cls="I")
+        else:
+            self.require(st, fn, b, "field-range:%s" % ".".join(str(x) for x in key[2][-2:]), "value stored in a range-declared field is tracked", [None], cls="I")
+
     def exec_block(self, fn, frame, b, st):
         self.cur = "%d:%s:%d" % (frame, fn.short[-24:], b)
         self.symctr = 0
@@ -520,13 +543,18 @@ class Analyzer(Interp):
                         self.copy_subtree(st, skey, key)
                     continue
                 if v[0] == "agg":
-                    # struct aggregate: spread fields
+                    # struct aggregate: spread fields; an enum variant's payload lives under its downcast
                     self.write_key(st, key, TOP)
+                    pre = key[2]
+                    if v[2] is not None and self.is_enum(v[1]):
+                        pre = pre + ("as:" + v[2],)
                     for fname, fv in zip(v[3], v[4]):
-                        fk = (key[0], key[1], key[2] + (int(fname) if str(fname).isdigit() else fname,))
+                        fk = (key[0], key[1], pre + (int(fname) if str(fname).isdigit() else fname,))
                         st.env[fk] = fv
+                        self.check_field_range(st, fn, b, fk, fv)
                     continue
                 self.write_key(st, key, v)
+                self.check_field_range(st, fn, b, key, v)
             elif k == "setdiscr":
                 key, left = self.resolve(st, frame, s["p"])
                 if not left:
@@ -742,9 +770,69 @@ class Analyzer(Interp):
             n += 1
         return last
 
+    def closure_def_types(self, fn, o):
+        """operand types of the aggregate that creates the closure held in operand o (the captured variables)"""
+        l = o["p"]["l"]
+        for b in range(fn.n):
+            for s in fn.stmts(b):
+                if s["k"] == "assign" and s["p"]["l"] == l and not s["p"].get("proj") and s["r"].get("k") == "aggregate" and s["r"].get("ak") == "closure":
+                    return [((x.get("p") or {}).get("ty") or x.get("ty") or "") for x in s["r"].get("ops") or ()]
+        return None
+
+    def run_closure_args(self, fn, frame, b, t, st):
+        """a crate closure handed to a std / dependency function (for_each, retain, filter, map, find, spawn ...): its
+        body is analysed here, with the captured variables bound to the caller's state.  It may run any number of
+        times, now or later while the borrows last, so everything it captures by `&mut` is forgotten before and after;
+        what it captures by shared reference or by value cannot change while it is alive.  Parameters are unknown."""
+        if t.get("callee_local") is not False:
+            return
+        from .libmodel import COMBINATORS
+        name = nm(t)
+        if any(matches(name, k) for k in COMBINATORS):
+            return
+        for argi, o in enumerate(t["args"]):
+            if o.get("k") not in ("copy", "move") or "{closure@" not in o["p"]["ty"] or o["p"]["ty"].startswith("&"):
+                continue
+            c = self.closure_of_operand(fn, o)
+            if c is None or c.name in self.inline_stack or len(self.inline_stack) >= self.inline_depth + 2:
+                continue
+            if self.scope is not None and c.name not in self.scope:
+                continue
+            tys = self.closure_def_types(fn, o)
+            key, left = self.resolve(st, frame, o["p"])
+            if tys is None or left:
+                continue
+            muts = []
+            for i, ty in enumerate(tys):
+                if ty.startswith("&mut"):
+                    v = st.env.get((key[0], key[1], key[2] + (i,)))
+                    if v is not None and v[0] == "ptr":
+                        muts.append(v[1])
+                    else:
+                        muts = None
+                        break
+            if muts is None:
+                continue
+            for mk in muts:
+                self.havoc_key(st, mk)
+            if self.single_use_closure(fn, o):
+                self.closure_ctx_only.add(c.name)
+            else:
+                self.closure_multi.add(c.name)
+            s1 = st.copy()
+            vals = [None] * (c.argc - 1)
+            saved = (self.cur, self.symctr)
+            r = self.call_closure(fn, frame, b, t, s1, argi, vals)
+            self.cur, self.symctr = saved
+            if r is None:
+                self.closure_multi.add(c.name)
+            for mk in muts:
+                self.havoc_key(st, mk)
+
     def exec_call(self, fn, frame, b, t, st):
         name = nm(t)
         tgt = t.get("target")
+        self.run_closure_args(fn, frame, b, t, st)
         res = self.model_call(fn, frame, b, t, st, name)
         if res == "diverge":
             return []
@@ -759,8 +847,19 @@ class Analyzer(Interp):
             r = self.call_local(fn, frame, b, t, st, callee)
             if r is not None:
                 return r
-        # unknown / dyn: havoc &mut arguments, default result
+        # unknown / dyn: havoc &mut arguments, default result; declared invariants are checked before and assumed
+        # after when every possible target is a crate function (each is analysed on its own)
+        local_targets = [self.P.fns[x] for x in targets if x in self.P.fns]
+        all_local = bool(targets) and len(local_targets) == len(targets)
+        for c in local_targets:
+            self.observe_args(fn, frame, b, t, st, c)
+            self.check_invariants_at_call(fn, frame, b, t, st, c)
+            if self.scope is None or c.name in self.scope:
+                self.need_standalone(c)
         self.havoc_call(fn, frame, b, t, st, targets)
+        if all_local:
+            for c in local_targets[:1]:
+                self.assume_invariants_after_call(fn, frame, b, t, st, c)
         self.set_dest(st, frame, t, None)
         if tgt is None:
             return []
@@ -779,10 +878,66 @@ class Analyzer(Interp):
             v = self.arg(st, frame, t, i)
             if v[0] == "ptr" and ty.startswith("&mut"):
                 key = v[1]
+                # grow-only fields: the callee(s) can only append to them
+                keep = []
+                adt = self._adt_of_ty(ty)
+                for (madt, mfield) in self.monotone:
+                    if adt and adt.endswith(madt) and targets and all(self.grow_only(tg, madt, mfield) for tg in targets):
+                        fk = (key[0], key[1], key[2] + (mfield,))
+                        old = self.deref(st, self.read_key(st, fk, self.field_types(adt).get(mfield)))
+                        if old[0] == "seq":
+                            keep.append((fk, old))
                 if written is not None and not seq_kind(ty) and not is_int_ty(ty.replace("&mut ", "")):
                     self.havoc_key(st, key, fields=written)
                 else:
                     self.havoc_key(st, key)
+                for (fk, old) in keep:
+                    ns = self.newsym(st, "grown", 0, LEN_MAX)
+                    st.store.add(old[1].sub(Lin.sym(ns)))       # old length <= new length
+                    self.symctr += 1
+                    st.env[fk] = ("seq", Lin.sym(ns), frozenset(), ("val", "%s.g%d" % (self.cur, self.symctr)))
+
+    GROW_ONLY_METHODS = ("Vec::push", "Vec::extend", "Extend::extend", "Vec::extend_from_slice", "IndexMut::index_mut", "Vec::as_mut_slice",
+                         "DerefMut::deref_mut", "Vec::reserve", "Vec::insert", "Vec::append")
+
+    def grow_only(self, fname, adt_suffix, field):
+        """no function reachable from fname shrinks or replaces <adt>.<field>: every mutable use of the field is the
+        receiver of an appending Vec method (or an in-place element write)"""
+        ck = (adt_suffix, field)
+        if ck not in self._shrinkers:
+            sh = set()
+            for f in self.P.fns.values():
+                bad = False
+                for b in range(f.n):
+                    for s in f.stmts(b):
+                        if s["k"] != "assign":
+                            continue
+                        # assignment to the field itself
+                        pr = s["p"].get("proj") or ()
+                        if pr and pr[-1][0] == "field" and pr[-1][2] == field and (pr[-1][4] or "").endswith(adt_suffix):
+                            bad = True
+                        r = s["r"]
+                        if r.get("k") in ("ref", "addrof") and r.get("bk") in ("mut", "Mut"):
+                            rp = r["p"].get("proj") or ()
+                            if rp and rp[-1][0] == "field" and rp[-1][2] == field and (rp[-1][4] or "").endswith(adt_suffix):
+                                # the borrow must be consumed by a grow-only method as its receiver
+                                tmp = s["p"]["l"]
+                                ok = False
+                                tt = f.term(b)
+                                if tt["k"] == "call" and tt["args"] and tt["args"][0].get("k") == "move" and tt["args"][0]["p"]["l"] == tmp \
+                                        and matches(nm(tt), *self.GROW_ONLY_METHODS):
+                                    ok = True
+                                if not ok:
+                                    bad = True
+                if bad:
+                    sh.add(f.name)
+            self._shrinkers[ck] = sh
+            self._grow_cache[ck] = {}
+        cache = self._grow_cache[ck]
+        if fname not in cache:
+            reach = self.P.reachable_from([fname])
+            cache[fname] = not (reach & self._shrinkers[ck])
+        return cache[fname]
 
     # ------------------------------------------------------------------ local calls: inline or summarise
     def inlinable(self, callee):
@@ -796,10 +951,12 @@ class Analyzer(Interp):
 
     def call_local(self, fn, frame, b, t, st, callee):
         in_scope = self.scope is None or callee.name in self.scope
-        if in_scope and len(self.inline_stack) < self.inline_depth and self.inlinable(callee):
+        depth_ok = len(self.inline_stack) < self.inline_depth or (callee.n <= 12 and len(self.inline_stack) < self.inline_depth + 4)
+        if in_scope and depth_ok and self.inlinable(callee):
             return self.inline(fn, frame, b, t, st, callee)
         # not inlined: the callee is analysed on its own; check declared invariants as preconditions,
         # havoc what it writes, assume invariants afterwards
+        self.observe_args(fn, frame, b, t, st, callee)
         self.check_invariants_at_call(fn, frame, b, t, st, callee)
         self.havoc_call(fn, frame, b, t, st, [callee.name])
         if in_scope:
@@ -822,7 +979,29 @@ class Analyzer(Interp):
         self.assume_invariants_after_call(fn, frame, b, t, st, callee)
         rv = self.default_noentry(st, dty)
         self.set_dest(st, frame, t, rv)
+        self.assume_invariant_on_result(fn, frame, t, st)
         return [(tgt, st, None)]
+
+    def observe_args(self, fn, frame, b, t, st, callee):
+        """record the interval of every integer argument of a call that is not inlined; after the run the hull over
+        all call sites is a sound range for the parameter of a function nobody outside the crate can call"""
+        for i in range(min(callee.argc, len(t["args"]))):
+            if not is_int_ty(callee.local_ty(i + 1)):
+                continue
+            v = self.deref(st, self.arg(st, frame, t, i))
+            lo = hi = None
+            if v[0] == "int":
+                lo, hi = st.store.interval(v[1])
+                # the interval from symbol ranges may be loose: tighten through the constraint store for common bounds
+                for cand in (1 << 62, 1 << 63):
+                    if (hi is None or hi > cand) and st.store.entails(v[1].addc(-cand)):
+                        hi = cand
+            tlo, thi = TYPE_RANGE[callee.local_ty(i + 1)]
+            lo = tlo if lo is None else max(lo, tlo)
+            hi = thi if hi is None else min(hi, thi)
+            cur = self.observed.get((callee.name, i + 1))
+            self.observed[(callee.name, i + 1)] = (lo, hi) if cur is None else (min(cur[0], lo), max(cur[1], hi))
+        self.observed_calls[callee.name] = self.observed_calls.get(callee.name, 0) + 1
 
     def need_standalone(self, callee):
         if callee.name not in self.analyzed_standalone:
@@ -849,7 +1028,7 @@ class Analyzer(Interp):
                 return
         st.env[(f2, i, ())] = v
 
-    def inline_core(self, fn, frame, b, tagname, st, callee, bind):
+    def inline_core(self, fn, frame, b, tagname, st, callee, bind, dest=None):
         """run callee's body in a fresh (deterministically numbered) frame; bind(st, f2) sets the parameters.
         Returns [(state, return value)] with the callee frame removed."""
         fk = (frame, fn.name, b, tagname)
@@ -872,6 +1051,14 @@ class Analyzer(Interp):
             self.cur, self.symctr = saved_cur + "r", saved_ctr
         out = []
         for (s2, rv) in exits:
+            if dest is not None and (rv is None or rv is TOP or rv[0] in ("top", "agg")):
+                # aggregate result: move its tracked components to the destination
+                dframe, dplace = dest
+                dkey, dleft = self.resolve(s2, dframe, dplace)
+                if not dleft:
+                    self.write_key(s2, dkey, TOP)
+                    self.copy_subtree(s2, (f2, 0, ()), dkey)
+                    rv = ("moved",)
             for k in [k for k in s2.env if k[0] == f2]:
                 del s2.env[k]
             if rv is not None and rv[0] == "ptr" and rv[1][0] == f2:
@@ -887,6 +1074,9 @@ class Analyzer(Interp):
         sts = []
         for (s2, rv2) in exits:
             key, left = self.resolve(s2, frame, t["dest"])
+            if rv2 is not None and rv2[0] == "moved":
+                sts.append(s2)
+                continue
             if not left:
                 self.ktype[key] = t["dest"]["ty"]
                 if rv2 is None or rv2[0] in ("havoc",):
@@ -913,7 +1103,7 @@ class Analyzer(Interp):
             for i in range(callee.argc):
                 o = t["args"][i] if i < len(t["args"]) else None
                 self.bind_arg(st_, frame, o, f2, i + 1, callee.local_ty(i + 1))
-        exits = self.inline_core(fn, frame, b, callee.name, st, callee, bind)
+        exits = self.inline_core(fn, frame, b, callee.name, st, callee, bind, dest=(frame, t["dest"]))
         return self.finish_call(fn, frame, b, t, exits, callee.name)
 
     # ------------------------------------------------------------------ closures handed to std combinators
@@ -1100,10 +1290,31 @@ class Analyzer(Interp):
                         if l is not None:
                             st.store.add(l)
 
+    def assume_invariant_on_result(self, fn, frame, t, st):
+        dty = t["dest"]["ty"]
+        if dty.startswith("&"):
+            return
+        adt = self._adt_of_ty(dty)
+        for inv in self.invariants:
+            if adt is not None and inv.adt == adt and dty.endswith(inv.adt.split("::")[-1]):
+                key, left = self.resolve(st, frame, t["dest"])
+                if left:
+                    continue
+                for l in self._inv_lins(st, key, inv, self.field_types(adt)):
+                    if l is not None:
+                        st.store.add(l)
+
     def check_invariants_at_exit(self, fn, frame, exits):
         for (st, rv) in exits:
             if rv is not None and rv[0] == "opt" and rv[1] in ("Err", "Break"):
                 continue        # error exits: the object is dropped by the caller chain (path rule in C01)
+            # a function returning the struct by value must return it with the invariant established
+            radt = self._adt_of_ty(fn.local_ty(0)) if not fn.local_ty(0).startswith("&") else None
+            for inv in self.invariants:
+                if radt is not None and inv.adt == radt and fn.local_ty(0).replace("mdns_sd::", "") .endswith(inv.adt.split("::")[-1]):
+                    lins = self._inv_lins(st, (frame, 0, ()), inv, self.field_types(radt))
+                    b = fn.exits()[0] if fn.exits() else 0
+                    self.require(st, fn, b, "invariant-new:" + inv.desc, "struct invariant %s holds for the returned value" % inv.desc, lins)
             for i in range(1, fn.argc + 1):
                 ty = fn.local_ty(i)
                 if not ty.startswith("&mut"):
